@@ -1,4 +1,4 @@
-"""C19 — fastcc.py: the LP of FASTCC (`_find_sparse_mode`), the coefficient flip (`_flip_coefficients`).
+"""C19 — fastcc.py: the LP of FASTCC (`_find_sparse_mode`), the coefficient flip (`_flip_coefficients`), the driver (`fastcc`).
 
 Documented (fastcc docstring, "The LP used for FASTCC", LP-7 of Vlassis et al. 2014):
     maximize  sum_{i in J} z_i   s.t.   z_i in [0, eps],   v_i >= z_i  for i in J,   S v = 0,  v in B
@@ -54,7 +54,58 @@ given coefficients), `model.constraints.get(name)` / `model.variables.get(name)`
 has direction "max", Reaction.flux = primal(forward) - primal(reverse) after a status check (the getter's try/except ladder is not
 re-verified here: modelled as raising OptimizationError exactly when the status is neither optimal nor one with primal values).
 
-Mutation trials (tools/mutate_and_run.sh cobra/flux_analysis/fastcc.py ...): see MUTANTS at the end of this module.
+fastcc(model, flux_threshold, zero_cutoff) - the SKELETON, PROVED for every model size (the two helpers applied by their proved
+contracts at the call sites; model.copy() / remove_reactions recorded as calls: C12 / C02 cover them):
+  * zero_cutoff is normalised first (ValueError below the tolerance, nothing else done).
+  * it works on the ARGUMENT model, never on a copy, and only inside contexts: every call of _find_sparse_mode, _flip_coefficients
+    and model.optimize is made on the argument while the context stack is the entry stack plus ONE context of the function (side
+    obligations at each call site); between two iterations of `while rxns_to_check`, at model.copy(), on return and when a solve
+    raises (OptimizationError propagates) the stack is as at entry.  Reverting what the helpers add on exit is C03 / C13.
+  * bookkeeping (loop invariant): the kept list rxns_to_keep is ONE list that only grows (its old entries stay where they are); each
+    of its entries is a reaction of the model and was in the answer of some _find_sparse_mode call of this run (ghost set `answered`
+    - i.e. carried |flux| > cutoff in a feasible distribution of the model plus the rows added for that call); the reactions still
+    to check are reactions of the model; the list handed to _flip_coefficients has pairwise different identifiers (its precondition).
+  * the LAST-ITERATION branch (nothing new was found): _flip_coefficients on the not yet kept reactions that are not in the first
+    (irreversible) list, then ONE model.optimize(min) - NB the builtin function `min` is passed as objective_sense, which
+    Model.optimize does not know (documented: None / "maximize" / "minimize"): the direction stays as installed, max, natively
+    confirmed - and the kept list is extended by exactly the reactions named by fluxes.index[|fluxes| > cutoff].tolist() of THAT
+    solution (labels assumed to be identifiers of reactions of the model: get_solution, C04), then the loop is left.
+  * FINAL CONSTRUCTION: with A = set(rxns_to_keep) (a subset of the model's reactions), model.copy() is called once, after the loop,
+    and remove_reactions(ids, remove_orphans=True) once, ON THE COPY, with ids = the identifiers of exactly the reactions of the
+    argument model that are not in A (both directions, through the ghost enumeration of the set difference); the COPY is returned;
+    the argument's reaction list, bounds, ids and model pointers are the ones found at entry.
+  NOT claimed: that A ends up being exactly the non-blocked set - that is the FASTCC theorem and, because of the row above, it FAILS
+  for reversible reactions (open finding fastcc-drops-reversible): bounded driver.  Termination of the while loop is not proved (each
+  non-final iteration removes at least one reaction from rxns_to_check; cardinalities are not tracked).
+
+Mutation trials (tools/mutate_and_run.sh cobra/flux_analysis/fastcc.py "<old>" "<new>" contracts.c19_fastcc --hooks HOOKS <key>); every
+mutant is rejected (the named obligation comes back sat / unknown):
+  _find_sparse_mode   forward + reverse - var -> forward - reverse - var ............ loop#0/inv-preserve.3   (the DOCUMENTED row: the
+                      contract states the row as built, so the repair is seen as a change - see the Judgement above)
+                      ub=flux_threshold -> ub=zero_cutoff .......................... loop#0/inv-preserve.3, .5
+                      {v: 1.0 ...} -> {v: -1.0 ...} ................................ exit=return/post.4
+                      abs(rxn.flux) > zero_cutoff -> rxn.flux > zero_cutoff ........ exit=return#1/post.9
+                      for rxn in model.reactions if -> for rxn in rxns if .......... exit=return#1/post.7, .9, .10
+                      obj_vars.append(var) -> pass ................................. loop#0/inv-preserve.4 (sat), .5
+  _flip_coefficients  {k: -v ... if k is not var} -> {k: v ...} .................... loop#0/inv-preserve.2
+                      ... if k is not var dropped (auxiliary flipped too) .......... loop#0/inv-preserve.2
+                      {k: -v for objective} -> {k: v ...} .......................... exit=return#1/post.2 (sat)
+                      variables.get("auxiliary_{}") -> variables.get("constraint_{}") loop#0/inv-preserve.2
+                      if k is not var -> if k is var ............................... loop#0/inv-preserve.2
+                      objective flip moved inside the loop ......................... loop#0/inv-preserve.3, exit=return#1/post (sat)
+  fastcc              consistent_model.remove_reactions -> model.remove_reactions .. exit=return/post
+                      difference(consistent_rxns) -> difference(irreversible_rxns) . exit=return/post.8, .9
+                      first `with model:` -> `if True:` ............................ fastcc/_find_sparse_mode-called-inside-own-context.1 (sat)
+                      return consistent_model -> return model ...................... exit=return/post
+                      rxns_to_keep.extend(new_rxns) -> rxns_to_keep = new_rxns ..... loop#0/inv-preserve
+                      remove_orphans=True -> False ................................. exit=return/post.1
+                      rxns_to_flip = ... -> rxns_to_flip = rxns_to_keep ............ call:_flip_coefficients/pre   (this mutant first
+                      VERIFIED: the flip axiom was assumed at the call site before its precondition was obliged; the axiom is now
+                      conditional on the precondition)
+                      model.copy() also inside the last-iteration branch ........... exit=return/post
+                      sol.fluxes.abs() > zero_cutoff -> sol.fluxes > zero_cutoff ... exit=return/post.10
+                      rxns_to_keep.extend(new_rxns) -> .extend(rxns_to_check) ...... loop#0/inv-preserve
+                      optimize(min) before _flip_coefficients ...................... exit=return/post
 """
 import copy
 import z3
@@ -686,6 +737,20 @@ FLIP_CALL = copy.copy(REG.get(KEY_FLIP))
 FLIP_CALL.call_cases = [Case("any")]                        # its post-condition is not needed by the skeleton
 
 
+RefSet = z3.ArraySort(Ref, z3.BoolSort())
+
+
+def answered(st):
+    """ghost: the reactions that were in the answer of some _find_sparse_mode call of this run (carried |flux| > cutoff there)"""
+    return st.ghost.get("answered", z3.K(Ref, z3.BoolVal(False)))
+
+
+def _all_answered(st, ln, elem, lo=None):
+    j = qv("wj")
+    rng = z3.And(0 <= j, j < ln) if lo is None else z3.And(0 <= j, j < ln, j < lo)
+    return FA([j], z3.Implies(rng, z3.Select(answered(st), elem[j])), patterns=[elem[j]])
+
+
 def _stack_as_at_entry(E, st):
     n0, e0 = C3._ctxs(E.s0, E["model"])
     n1, e1 = C3._ctxs(st, E["model"])
@@ -722,10 +787,20 @@ def fcc_call_abstract(eng, st, f, pos, kw):
     eng.oblige(st, z3.BoolVal(bool(pos) and isinstance(pos[0], VObj) and pos[0].oid == eng.entry_args["model"].oid),
                f"fastcc/{f.a}-called-on-the-argument-model", kind="side")
     eng.oblige_split(st, _in_own_context(E0, st), f"fastcc/{f.a}-called-inside-own-context", kind="side")
-    saved = _tr(st)
+    saved, a0 = _tr(st), answered(st)
     con = SM_CALL if f.a == KEY_SM else FLIP_CALL
-    outs = eng.apply_contract(st, con, list(pos), kw)
-    return [(k, s.setghost("trace", saved + ((f.a, k),)), v) for k, s, v in outs]
+    res = []
+    for k, s, v in eng.apply_contract(st, con, list(pos), kw):
+        s = s.setghost("trace", saved + ((f.a, k),))
+        if k == "ok" and f.a == KEY_SM:
+            # ghost bookkeeping: answered := answered + the elements of this answer (a definition of the new ghost value)
+            a1 = fresh("answered", RefSet)
+            rn, re_ = L(s, v)
+            x, j = qv("ax", Ref), qv("aj")
+            s = s.assume(FA([x], z3.Implies(z3.Select(a0, x), z3.Select(a1, x)), patterns=[z3.Select(a0, x)]),
+                         FA([j], z3.Implies(z3.And(0 <= j, j < rn), z3.Select(a1, re_[j])), patterns=[re_[j]])).setghost("answered", a1)
+        res.append((k, s, v))
+    return res
 
 
 def fcc_getattr(eng, st, v, name):
@@ -804,7 +879,7 @@ def fcc_iter(eng, st, v):
     """iterating the opaque list of labels `sol.fluxes.index[...].tolist()`: its entries are identifiers"""
     if _is_fcc(eng) and isinstance(v, N.VNp):
         n = N.np_len(v.t)
-        return [("ok", st.assume(n >= 0), VSeq(n, lambda s, i: VStr(label_at(v.t, i)), tag="labels"))]
+        return [("ok", _log(st.assume(n >= 0), "labels", v.t, st), VSeq(n, lambda s, i: VStr(label_at(v.t, i)), tag="labels"))]
     return None
 
 
@@ -840,7 +915,7 @@ def _fcc_inv(E, Lc):
     j = qv("gj")
     no_final_step = not any(ev[0] in ("copy", "remove_reactions") for ev in _tr(Lc.st))      # the copy is made after the loop
     return z3.And(z3.BoolVal(no_final_step), _stack_as_at_entry(E, Lc.st), C3._ctx_nonnull(Env({"obj": E["model"]}, Lc.st, eng=E.eng)),
-                  members_of_model(E, E.s0, kn, ke), members_of_model(E, E.s0, cn, ce),
+                  members_of_model(E, E.s0, kn, ke), members_of_model(E, E.s0, cn, ce), _all_answered(Lc.st, kn, ke),
                   kn >= kn0, FA([j], z3.Implies(z3.And(0 <= j, j < kn0), ke[j] == ke0[j]), patterns=[ke[j]]))
 
 
@@ -848,14 +923,15 @@ def _fcc_loop_mod(E, Lc):
     m = E["model"]
     return [("list", Lc.var("rxns_to_keep")), ("list", Lc.var("rxns_to_check")), ("heap", "hm_len"),
             ("attr", m, "_contexts", lambda st: _alloc_list(st, "ref:HistoryManager")),
-            ("ghost", "world", lambda st: fresh("world", C3.World)), ("ghost", "ccoef", lambda st: fresh("ccoef", RowCoef))] + \
-        _sm_mod(E)
+            ("ghost", "world", lambda st: fresh("world", C3.World)), ("ghost", "ccoef", lambda st: fresh("ccoef", RowCoef)),
+            ("ghost", "answered", lambda st: fresh("answered", RefSet))] + _sm_mod(E)
 
 
 def _fcc_mod(E):
     m = E["model"]
     return [("heap", "hm_len"), ("attr", m, "_contexts", lambda st: _alloc_list(st, "ref:HistoryManager")),
-            ("ghost", "world", lambda st: fresh("world", C3.World)), ("ghost", "ccoef", lambda st: fresh("ccoef", RowCoef))] + _sm_mod(E)
+            ("ghost", "world", lambda st: fresh("world", C3.World)), ("ghost", "ccoef", lambda st: fresh("ccoef", RowCoef)),
+            ("ghost", "answered", lambda st: fresh("answered", RefSet))] + _sm_mod(E)
 
 
 def _order_for(st, ln):
@@ -899,6 +975,28 @@ def _fcc_post(E):
                                                              z3.Not(z3.Select(adom, order[j])))), patterns=[order[j]]),
            FA([x], z3.Implies(z3.And(in_model(E, E.s0, x), z3.Not(z3.Select(adom, x))),
                               z3.And(0 <= pos_[x], pos_[x] < rn, re_[pos_[x]] == ida[x])), patterns=[pos_[x]])]
+    # WHERE A COMES FROM: every kept reaction was in the answer of a _find_sparse_mode call - except, when the loop ends through its
+    # last-iteration branch, those appended there: the reactions named by the labels  fluxes.index[|fluxes| > cutoff].tolist()  of the
+    # solution of the ONE solve made after _flip_coefficients (model.optimize(min): the builtin `min` is not a documented sense)
+    names = [ev[0] for ev in tr]
+    if "optimize" in names or "labels" in names or KEY_FLIP in names:
+        if names[-5:-2] != [KEY_FLIP, "optimize", "labels"] or names.count("optimize") != 1 or names.count("labels") != 1:
+            return z3.BoolVal(False)
+        _, sense, sol = tr[-4]
+        _, labels, st_lab = tr[-3]
+        cut = _fcc_local(E, st_lab, "zero_cutoff")
+        k0, _ = L(st_lab, keep)
+        fluxes = N.term("attr.fluxes", sol.t)
+        mask = N.term("gt", N.term("call", N.term("attr.abs", fluxes)), N.lift(cut))
+        dl_ = _m(E)["attr:reactions"]
+        _, me = L(E.s0, dl_)
+        _, mval = Dv(E.s0, dl_)
+        cs += [labels == N.term("call", N.term("attr.tolist", N.term("getitem", N.term("attr.index", fluxes), mask))),
+               z3.BoolVal(isinstance(sense, VFunc)),                # what is passed is a function object (the builtin min), recorded
+               _all_answered(st_rm, kn, ke, lo=k0), kn == k0 + N.np_len(labels),
+               FA([j], z3.Implies(z3.And(k0 <= j, j < kn), ke[j] == me[mval[label_at(labels, j - k0)]]), patterns=[ke[j]])]
+    else:
+        cs.append(_all_answered(st_rm, kn, ke))
     # the argument model's reaction list is the one found at entry (nothing is added to / removed from the argument)
     dl = _m(E)["attr:reactions"]
     cs.append(z3.BoolVal(E.s1.objs[dl.oid] is E.s0.objs[dl.oid] and all(
